@@ -105,8 +105,10 @@ def run(ctx, rep):
         bits = F.pointer_bits
         imax = (1 << (bits - 1)) - 1
         incs = [(b, B, bi, t, o) for (b, B, bi, t, cls, o) in atomics.sites(F) if cls == model.ATOMIC_RMW_ADD and atomics.receiver_is_count(F, B, t)]
-        if len(incs) != 1:
-            rep.bad("R-FUNNEL", "increment-sites", "expected exactly one increment site of the count word in the crate, found %d (%s): every clone path must go through the one guarded increment" % (len(incs), [x[0]["key"] for x in incs]), None, tag)
+        if not incs:
+            rep.bad("R-FUNNEL", "increment-sites", "no increment site of the count word found in the crate (anchor lost)", None, tag)
+        # (several sites are fine - a handle kind may increment in its own Clone - as long as *each* one is guarded: R-OVFGUARD below
+        # is judged per site, and every clone entry point reaches exactly one increment)
         work = []
         for b, B, bi, t, _o in incs:
             key = b["key"]
